@@ -1384,6 +1384,18 @@ func (c *SpecCtx) evalCall(x *ast.CallExpr) (Val, types.Type) {
 	case "isNilIface":
 		v, _ := c.eval(x.Args[0])
 		return Eq(IfTid(v.(*Term)), IntLit(0)), tBool
+	case "implements":
+		// implements(x, T): the dynamic type of the interface value x implements the interface type T
+		v, _ := c.eval(x.Args[0])
+		t := c.resolveType(x.Args[1])
+		if t == nil {
+			panic(sperr("unknown type %s", exprStr(x.Args[1])))
+		}
+		it, ok := under(t).(*types.Interface)
+		if !ok {
+			panic(sperr("implements: %s is not an interface type", exprStr(x.Args[1])))
+		}
+		return c.e.implementsTerm(v.(*Term), it, t.String()), tBool
 	case "allocated":
 		v, t := c.eval(x.Args[0])
 		r := v.(*Term)
